@@ -1,18 +1,10 @@
-import SMV.Lemmas.Ctx
-import SMV.Props.C10
-import SMV.Props.C19
+import SMV.Lemmas.Acc
 /-
   C16 — Context and payload are moved, never duplicated or lost.
   Facts about *any* emitted method / wrapper code, so they do not depend on how it was generated.
 -/
 namespace SMV.C16
 open SMV
-
-/-- what the holder's machine carries as context, if it holds one -/
-def Holder.ctx? : Holder → Option Nat
-  | .typed m => some m.ctx
-  | .dyn ⟨some (_, m)⟩ => some m.ctx
-  | _ => none
 
 /-- **Guards see the machine's own context**, and so does every other hook, on every path. -/
 theorem hooks_see_own_context (meth : Method) (env : Env) (self : TM) (payload : Option Nat) (h : Hist) :
@@ -27,39 +19,6 @@ theorem context_moved (meth : Method) (env : Env) (self : TM) (payload : Option 
     (∀ old ge, run env (methodProg meth self payload) h = (.done (.err old ge), h') → old = self) :=
   ⟨fun nm hr => (method_ok_ctx meth env self payload h h' nm hr).1,
    fun old ge hr => method_err_same meth env self payload h h' old ge hr⟩
-
-theorem handleProg_done_ctx (env : Env) (c : Code) (p : DynParts) (tag : Name) (tm : TM) (ev : EventVal) (h h' : Hist)
-    (d' : DM) (r : HandleRes) (hrun : run env (handleProg c p tag tm ev) h = (.done (d', r), h')) :
-    ∃ tag' tm', d'.inner = some (tag', tm') ∧ tm'.ctx = tm.ctx := by
-  unfold handleProg at hrun
-  cases hfa : p.arms.find? (fun a => a.src = tag ∧ a.variant = ev.variant) with
-  | none =>
-    simp only [hfa, run] at hrun
-    simp at hrun
-    obtain ⟨⟨rfl, _⟩, _⟩ := hrun
-    exact ⟨tag, tm, rfl, rfl⟩
-  | some a =>
-    simp only [hfa] at hrun
-    cases hfm : c.findMethod ((alookup a.src p.anyVariants).getD []) a.method with
-    | none => simp [hfm, run] at hrun
-    | some meth =>
-      simp only [hfm] at hrun
-      rw [run_mapRet] at hrun
-      rcases hr : run env (methodProg meth tm (if a.passPayload then ev.payload else none)) h with ⟨o, h2⟩
-      rw [hr] at hrun
-      cases o with
-      | done mr =>
-        cases mr with
-        | ok nm =>
-          simp at hrun
-          obtain ⟨⟨rfl, _⟩, _⟩ := hrun
-          exact ⟨_, nm, rfl, (method_ok_ctx meth env tm _ h h2 nm hr).1⟩
-        | err old ge =>
-          simp at hrun
-          obtain ⟨⟨rfl, _⟩, _⟩ := hrun
-          exact ⟨_, old, rfl, by rw [method_err_same meth env tm _ h h2 old ge hr]⟩
-      | panicked pi => simp at hrun
-      | abandoned => simp at hrun
 
 /-- a dispatch that returns keeps the very context the wrapper had -/
 theorem handle_keeps_context (env : Env) (c : Code) (p : DynParts) (tag : Name) (tm : TM) (ev : EventVal) (h h' : Hist)
@@ -153,5 +112,298 @@ theorem conversions_keep_context (m : Machine) (tm : TM) (hs : tm.state ∈ m.st
   · intro tm' h
     simp [dynExtract] at h
     rw [← h]
+
+/-! ### accounting along histories -/
+
+/-- **Context accounting, one operation.** Every operation of the public API other than the three that
+    create a machine either keeps the context in what the caller holds and drops nothing of it, or removes
+    it from what the caller holds and drops it exactly once. -/
+theorem step_ctx_accounting (env : Env) (c : Code) (p : Option DynParts) (hold : Holder) (op : Op)
+    (hop : Op.creates op = false) : CtxStep hold (step env c p hold op) := by
+  cases op with
+  | newTyped _ => simp [Op.creates] at hop
+  | newDyn _ => simp [Op.creates] at hop
+  | dynDefault => simp [Op.creates] at hop
+  | handle v pay =>
+    cases p with
+    | none => exact ctxStep_same hold _ _ _ rfl
+    | some p =>
+      cases hold with
+      | typed m => exact ctxStep_same _ _ _ _ rfl
+      | gone => exact ctxStep_same _ _ _ _ rfl
+      | dyn d =>
+        obtain ⟨inner⟩ := d
+        cases inner with
+        | none => simp [step, runHandle, CtxStep, Holder.ctx?]
+        | some x =>
+          obtain ⟨tag, tm⟩ := x
+          have := context_dropped_with_machine env c (some p) tag tm v pay
+          simp only at this
+          unfold CtxStep
+          simp only [Holder.ctx?]
+          rcases hr : runHandle env c p ⟨some (tag, tm)⟩ ⟨v, pay⟩ [] with ⟨⟨d', out⟩, t⟩
+          simp only [step, hr] at this ⊢
+          cases out with
+          | done r =>
+            cases r with
+            | ok => left; exact ⟨(this.1 (Or.inl rfl)).2, by simp⟩
+            | err e => left; exact ⟨(this.1 (Or.inr ⟨e, rfl⟩)).2, by simp⟩
+          | panicked pi =>
+            right
+            refine ⟨(this.2 ⟨pi, rfl⟩).2, by simp [List.filter_append, isCtxDrop]⟩
+          | abandoned =>
+            exfalso
+            simp only [runHandle] at hr
+            rcases hrr : run env (handleProg c p tag tm ⟨v, pay⟩) [] with ⟨o2, t2⟩
+            rw [hrr] at hr
+            cases o2 with
+            | done x => simp at hr
+            | panicked pi => simp at hr
+            | abandoned => exact run_not_abandoned env _ _ _ hrr
+  | handleAbandon v pay n =>
+    cases p with
+    | none => exact ctxStep_same hold _ _ _ rfl
+    | some p =>
+      cases hold with
+      | typed m => exact ctxStep_same _ _ _ _ rfl
+      | gone => exact ctxStep_same _ _ _ _ rfl
+      | dyn d =>
+        obtain ⟨inner⟩ := d
+        cases inner with
+        | none => simp [step, runHandleUpTo, CtxStep, Holder.ctx?]
+        | some x =>
+          obtain ⟨tag, tm⟩ := x
+          unfold CtxStep
+          simp only [Holder.ctx?, step, runHandleUpTo]
+          rcases hrr : runUpTo env n (handleProg c p tag tm ⟨v, pay⟩) [] with ⟨o2, t2⟩
+          cases o2 with
+          | done x =>
+            obtain ⟨d', r⟩ := x
+            have hrun := runUpTo_done env _ n [] t2 (d', r) hrr
+            obtain ⟨tag', tm', hd', hctx⟩ := handleProg_done_ctx env c p tag tm ⟨v, pay⟩ [] t2 d' r hrun
+            have hd'' : d' = ⟨some (tag', tm')⟩ := by cases d'; simp_all
+            subst hd''
+            cases r <;> (left; exact ⟨by simp [Holder.ctx?, hctx], by simp⟩)
+          | panicked pi => right; exact ⟨rfl, by simp [List.filter_append, isCtxDrop]⟩
+          | abandoned => right; exact ⟨rfl, by simp [List.filter_append, isCtxDrop]⟩
+  | handleNoPoll v pay =>
+    cases p with
+    | none => exact ctxStep_same hold _ _ _ rfl
+    | some p => cases hold <;> exact ctxStep_same _ _ _ _ (by simp [step])
+  | currentState =>
+    simp only [step]
+    repeat' split
+    all_goals exact ctxStep_same _ _ _ _ rfl
+  | read s =>
+    simp only [step]
+    repeat' split
+    all_goals exact ctxStep_same _ _ _ _ rfl
+  | write s v =>
+    simp only [step]
+    repeat' split
+    all_goals first | exact ctxStep_same _ _ _ _ rfl | exact ctxStep_keep _ _ _ _ _ (ctx_dynWrite _ _ _) rfl
+  | set s v =>
+    cases p with
+    | none => exact ctxStep_same hold _ _ _ rfl
+    | some p =>
+      cases hold with
+      | typed m => exact ctxStep_same _ _ _ _ rfl
+      | gone => exact ctxStep_same _ _ _ _ rfl
+      | dyn d =>
+        simp only [step]
+        cases ha : Code.dynAcc p s with
+        | none => exact ctxStep_same _ _ _ _ rfl
+        | some a =>
+          simp only
+          have hc := ctx_dynSet p a d v
+          rcases hset : dynSet p a d v with ⟨d', e⟩
+          rw [hset] at hc
+          cases e <;> exact ctxStep_keep _ _ _ _ _ hc rfl
+  | into s =>
+    cases p with
+    | none => exact ctxStep_same hold _ _ _ rfl
+    | some p =>
+      cases hold with
+      | typed m => exact ctxStep_same _ _ _ _ rfl
+      | gone => exact ctxStep_same _ _ _ _ rfl
+      | dyn d =>
+        simp only [step]
+        cases hf : p.extract.find? (·.2.1 = s) with
+        | none => exact ctxStep_same _ _ _ _ rfl
+        | some x =>
+          obtain ⟨_, _, variant⟩ := x
+          simp only
+          cases hx : dynExtract variant d with
+          | ok m =>
+            refine ctxStep_keep _ _ _ _ _ ?_ rfl
+            have := ((C10.extract_iff variant d).1 m).mp hx
+            obtain ⟨inner⟩ := d
+            simp only at this
+            subst this
+            rfl
+          | error d' =>
+            have := (C10.extract_iff variant d).2 d' hx
+            subst this
+            exact ctxStep_same _ _ _ _ rfl
+  | toDyn =>
+    cases p with
+    | none => cases hold <;> exact ctxStep_same _ _ _ _ rfl
+    | some p =>
+      cases hold with
+      | dyn d => exact ctxStep_same _ _ _ _ rfl
+      | gone => exact ctxStep_same _ _ _ _ rfl
+      | typed m =>
+        simp only [step]
+        cases hx : intoDynamic p m with
+        | none => exact ctxStep_same _ _ _ _ rfl
+        | some d =>
+          refine ctxStep_keep _ _ _ _ _ ?_ rfl
+          simp only [intoDynamic, Option.map_eq_some_iff] at hx
+          obtain ⟨_, _, rfl⟩ := hx
+          rfl
+  | tcall name pay =>
+    cases hold with
+    | dyn d => exact ctxStep_same _ _ _ _ rfl
+    | gone => exact ctxStep_same _ _ _ _ rfl
+    | typed m =>
+      simp only [step]
+      cases hf : c.findMethod m.state name with
+      | none => exact ctxStep_same _ _ _ _ rfl
+      | some meth =>
+        simp only
+        rcases hr : run env (methodProg meth m (if meth.payload.isSome then pay else none)) [] with ⟨o, t⟩
+        cases o with
+        | done r =>
+          cases r with
+          | ok nm => exact ctxStep_keep _ _ _ _ _ (by simp [Holder.ctx?, (method_ok_ctx meth env m _ [] t nm hr).1]) (by simp)
+          | err old e => exact ctxStep_keep _ _ _ _ _ (by simp [Holder.ctx?, method_err_same meth env m _ [] t old e hr]) (by simp)
+        | panicked pi => simp [CtxStep, Holder.ctx?, List.filter_append, isCtxDrop]
+        | abandoned => simp [CtxStep, Holder.ctx?, List.filter_append, isCtxDrop]
+  | tcallAbandon name pay n =>
+    cases hold with
+    | dyn d => exact ctxStep_same _ _ _ _ rfl
+    | gone => exact ctxStep_same _ _ _ _ rfl
+    | typed m =>
+      simp only [step]
+      cases hf : c.findMethod m.state name with
+      | none => exact ctxStep_same _ _ _ _ rfl
+      | some meth =>
+        simp only
+        rcases hr : runUpTo env n (methodProg meth m (if meth.payload.isSome then pay else none)) [] with ⟨o, t⟩
+        cases o with
+        | done r =>
+          have hrun := runUpTo_done env _ n [] t r hr
+          cases r with
+          | ok nm => exact ctxStep_keep _ _ _ _ _ (by simp [Holder.ctx?, (method_ok_ctx meth env m _ [] t nm hrun).1]) (by simp)
+          | err old e => exact ctxStep_keep _ _ _ _ _ (by simp [Holder.ctx?, method_err_same meth env m _ [] t old e hrun]) (by simp)
+        | panicked pi => simp [CtxStep, Holder.ctx?, List.filter_append, isCtxDrop]
+        | abandoned => simp [CtxStep, Holder.ctx?, List.filter_append, isCtxDrop]
+  | tcallNoPoll name pay =>
+    cases hold with
+    | dyn d => exact ctxStep_same _ _ _ _ rfl
+    | gone => exact ctxStep_same _ _ _ _ rfl
+    | typed m =>
+      simp only [step]
+      cases hf : c.findMethod m.state name with
+      | none => exact ctxStep_same _ _ _ _ rfl
+      | some meth => simp [CtxStep, Holder.ctx?, List.filter_append, isCtxDrop]
+  | tdata s =>
+    simp only [step]
+    repeat' split
+    all_goals first
+      | exact ctxStep_same _ _ _ _ rfl
+      | simp [CtxStep, Holder.ctx?, isCtxDrop]
+  | tdataMut s v =>
+    simp only [step]
+    repeat' split
+    all_goals first
+      | exact ctxStep_same _ _ _ _ rfl
+      | exact ctxStep_keep _ _ _ _ _ (by simp [Holder.ctx?]) rfl
+      | simp [CtxStep, Holder.ctx?, isCtxDrop]
+  | topt s =>
+    simp only [step]
+    repeat' split
+    all_goals exact ctxStep_same _ _ _ _ rfl
+  | toptMut s v =>
+    simp only [step]
+    repeat' split
+    all_goals first
+      | exact ctxStep_same _ _ _ _ rfl
+      | exact ctxStep_keep _ _ _ _ _ (by simp [Holder.ctx?]) rfl
+  | drop =>
+    simp only [step]
+    repeat' split
+    all_goals simp [CtxStep, Holder.ctx?, isCtxDrop]
+
+
+theorem runOps_none (c : Code) (p : Option DynParts) :
+    ∀ (ops : List (Env × Op)) (hold : Holder), (∀ x ∈ ops, Op.creates x.2 = false) → Holder.ctx? hold = none →
+      Holder.ctx? (runOps c p hold ops).1 = none ∧ (runOps c p hold ops).2.filter isCtxDrop = [] := by
+  intro ops
+  induction ops with
+  | nil => intro hold _ h; exact ⟨h, rfl⟩
+  | cons x rest ih =>
+    intro hold hall hnone
+    obtain ⟨env, op⟩ := x
+    have hstep := step_ctx_accounting env c p hold op (hall (env, op) (by simp))
+    unfold CtxStep at hstep
+    rw [hnone] at hstep
+    obtain ⟨h1, h2⟩ := ih (step env c p hold op).holder (fun y hy => hall y (by simp [hy])) hstep.1
+    simp only [runOps]
+    exact ⟨h1, by rw [List.filter_append, hstep.2, h2]; rfl⟩
+
+/-- **The context is dropped exactly once, when the machine is.** Along any history of operations of the
+    public API (successes, refusals, conversions, accessors, panicking or abandoned calls) on a machine
+    carrying context `k`: the drop log contains `k` exactly once if the caller no longer holds a machine in
+    the end, and not at all if it still does — never twice, and never while the machine is still held. -/
+theorem context_dropped_exactly_once (c : Code) (p : Option DynParts) :
+    ∀ (ops : List (Env × Op)) (hold : Holder) (k : Nat), (∀ x ∈ ops, Op.creates x.2 = false) →
+      Holder.ctx? hold = some k →
+      (Holder.ctx? (runOps c p hold ops).1 = some k ∧ (runOps c p hold ops).2.filter isCtxDrop = []) ∨
+      (Holder.ctx? (runOps c p hold ops).1 = none ∧ (runOps c p hold ops).2.filter isCtxDrop = [.ctx k]) := by
+  intro ops
+  induction ops with
+  | nil => intro hold k _ h; exact Or.inl ⟨h, rfl⟩
+  | cons x rest ih =>
+    intro hold k hall hk
+    obtain ⟨env, op⟩ := x
+    have hstep := step_ctx_accounting env c p hold op (hall (env, op) (by simp))
+    unfold CtxStep at hstep
+    rw [hk] at hstep
+    simp only [runOps]
+    rcases hstep with ⟨h1, h2⟩ | ⟨h1, h2⟩
+    · rcases ih (step env c p hold op).holder k (fun y hy => hall y (by simp [hy])) h1 with ⟨g1, g2⟩ | ⟨g1, g2⟩
+      · exact Or.inl ⟨g1, by rw [List.filter_append, h2, g2]; rfl⟩
+      · exact Or.inr ⟨g1, by rw [List.filter_append, h2, g2]; rfl⟩
+    · obtain ⟨g1, g2⟩ := runOps_none c p rest (step env c p hold op).holder (fun y hy => hall y (by simp [hy])) h1
+      exact Or.inr ⟨g1, by rw [List.filter_append, h2, g2]; rfl⟩
+
+/-- in particular, a history that ends with dropping the machine has dropped the context exactly once -/
+theorem dropped_once_at_the_end (c : Code) (p : Option DynParts) (ops : List (Env × Op)) (hold : Holder) (k : Nat)
+    (env : Env) (hall : ∀ x ∈ ops, Op.creates x.2 = false) (hk : Holder.ctx? hold = some k) :
+    (runOps c p hold (ops ++ [(env, .drop)])).2.filter isCtxDrop = [.ctx k] := by
+  have hall' : ∀ x ∈ ops ++ [(env, Op.drop)], Op.creates x.2 = false := by
+    intro x hx
+    rcases List.mem_append.mp hx with hx | hx
+    · exact hall x hx
+    · simp at hx; subst hx; rfl
+  rcases context_dropped_exactly_once c p (ops ++ [(env, .drop)]) hold k hall' hk with ⟨g1, _⟩ | ⟨_, g2⟩
+  · -- the final holder after an explicit drop is `gone`
+    exfalso
+    have : ∀ (l : List (Env × Op)) (h0 : Holder), (runOps c p h0 (l ++ [(env, Op.drop)])).1 = .gone := by
+      intro l
+      induction l with
+      | nil =>
+        intro h0
+        simp only [List.nil_append, runOps, step]
+        cases h0 with
+        | typed m => rfl
+        | gone => rfl
+        | dyn d => obtain ⟨inner⟩ := d; cases inner <;> rfl
+      | cons y ys ihl => intro h0; obtain ⟨e2, o2⟩ := y; simp only [List.cons_append, runOps]; exact ihl _
+    rw [this] at g1
+    simp [Holder.ctx?] at g1
+  · exact g2
+
 
 end SMV.C16
